@@ -1019,7 +1019,7 @@ func c33GenVariant(r *Rand, i int, multi, seekable bool) c33Case {
 	if r.Chance(1, 8) {
 		nops = r.Range(12, 40)
 	}
-	big := i%18 == 7 // a few multi-page packets per run
+	big := i%36 == 7 // a few multi-page packets per run
 	for k := 0; k < nops; k++ {
 		switch {
 		case r.Chance(1, 15):
@@ -1187,9 +1187,12 @@ func c33TocRun(toc int) (V, Verdict) {
 		got, ok := entry(p)
 		want, wok := c33Samples(p)
 		if ok {
-			obs = binary.BigEndian.AppendUint16(obs, uint16(got))
+			obs = append(obs, byte(got/120)) // every Opus frame size is a multiple of 120 samples
+			if got%120 != 0 || got/120 >= 255 {
+				obs = append(obs, 254)
+			}
 		} else {
-			obs = append(obs, 255, 255)
+			obs = append(obs, 255)
 		}
 		if ok != wok || got != want {
 			v := Fail("sample-count-differs-from-rfc6716", fmt.Sprintf("packet %x: %d/%v, RFC 6716 gives %d/%v", p, got, ok, want, wok))
@@ -1221,7 +1224,7 @@ func init() {
 		Register(Spec[c33Case]{
 			ID: "C33", Suite: v.name, CoqImports: []string{"Check.C33"},
 			CoqType: "string", CoqRun: "Check.C33.run",
-			Quick: 36, Thorough: 1500, Parallel: 8,
+			Quick: 36, Thorough: 500, Parallel: 8,
 			Corpus: func() []c33Case {
 				var out []c33Case
 				for _, c := range c33Corpus() {
@@ -1238,7 +1241,7 @@ func init() {
 	Register(Spec[c33Bytes]{
 		ID: "C33", Suite: "read", CoqImports: []string{"Check.C33"},
 		CoqType: "string", CoqRun: "Check.C33.run_read",
-		Quick: 60, Thorough: 3000, Parallel: 8,
+		Quick: 60, Thorough: 1000, Parallel: 8,
 		Corpus: func() []c33Bytes {
 			var out []c33Bytes
 			b := c33SmallFile(NewRand(11))
